@@ -95,6 +95,20 @@ def unaryH (op : UnOp) (a : Opd) (blank : Array Bool) : Sx :=
       | .pos => id
     .list (head r ++ [rows r.lead (r.numer ++ r.denom) blank fun i => f (a.arr.get i)])
 
+def parseMath : String → Option MathFn
+  | "sin" => some .sin | "cos" => some .cos | "tan" => some .tan | "arcsin" => some .arcsin | "arccos" => some .arccos
+  | "arctan" => some .arctan | "sqrt" => some .sqrt | "log" => some .log | "exp" => some .exp | "sign" => some .sign
+  | _ => none
+
+/-- class / kind / shapes only; the kind is not reported when no element is observable (`allBlank`) -/
+def metaOnly (x : Option (M Res)) (allBlank : Bool) : Sx :=
+  match x with
+  | none => .atom "unmodelled"
+  | some (.error e) => rejSx e
+  | some (.ok r) =>
+    .list ([.atom (clsName r.cls), .atom (if allBlank then "-" else kindName r.kind), Sx.ofNats r.lead,
+            Sx.ofNats r.numer, Sx.ofNats r.denom] ++ [.atom "-"])
+
 def parseBlank : Sx → Array Bool
   | x => match x.bools? with
     | some l => l.toArray
@@ -111,6 +125,21 @@ def handle : List Sx → Sx
   | [.atom "neg", a, bl] => match parseOpd a with | some a => unaryH .neg a (parseBlank bl) | none => err "operand"
   | [.atom "abs", a, bl] => match parseOpd a with | some a => unaryH .abs a (parseBlank bl) | none => err "operand"
   | [.atom "pos", a, bl] => match parseOpd a with | some a => unaryH .pos a (parseBlank bl) | none => err "operand"
+  | [.atom "pow", a, b, bl] =>
+    match parseOpd a, parseOpd b with
+    | some a, some b =>
+      let negInt := b.d.kind == .int && b.vals.any (· < 0)
+      let blank := parseBlank bl
+      metaOnly (powDispatch a.d b.d negInt) (blank.all id)
+    | _, _ => err "operand"
+  | [.atom "arctan2", a, b, bl] =>
+    match parseOpd a, parseOpd b with
+    | some a, some b => metaOnly (arctan2Dispatch a.d b.d) ((parseBlank bl).all id)
+    | _, _ => err "operand"
+  | [.atom "math", .atom f, a, bl] =>
+    match parseMath f, parseOpd a with
+    | some f, some a => metaOnly (mathFn f a.d) ((parseBlank bl).all id)
+    | _, _ => err "operand"
   | [.atom op, a, b, bl] =>
     match parseOp op, parseOpd a, parseOpd b with
     | some op, some a, some b => binary op a b (parseBlank bl)
